@@ -35,6 +35,7 @@ namespace
                 if (b == 0x1B) { st = 1; return; }
                 if (b == '\r') { col = 0; return; }
                 if (b == '\n') { row.clear(); col = 0; rows_committed++; return; }
+                if (b == 0x07) return; // BEL: audible only
                 if (b >= 0x20 && b < 0x7F)
                 {
                     if (col >= row.size()) row.resize(col + 1, ' ');
